@@ -1,1 +1,1 @@
-
+import NjectProps.S7
